@@ -71,10 +71,78 @@ def cases(tier, seed, flavour):
     for k in range(len(INIT)):
         for e in ALPHABET:
             yield {'init': k, 'first': list(e), 'depth': depth - 1, 'pal': pal, 'fmt': fmt}
+    for k in range(len(RESOLVE)):
+        yield {'part': 'resolve', 'k': k, 'pal': pal, 'fmt': fmt}
 
 
 def crash_key(case):
+    if case.get('part') == 'resolve':
+        return 'resolve:%d' % case['k']
     return 'init%s:%s' % (case.get('init'), '-'.join(case.get('first') or ['none']))
+
+
+# ------------------------------------------------------------------ solve() does not edit the problem
+# piecewise-linear problems (several convex terms in one constraint, PWL objectives): name -> builder(x, y, z)
+RESOLVE = [
+    lambda x, y, z, M: (M.sum(y) - x, [M.max(y) - M.min(y) <= 1, abs(x) <= 2, y >= -1]),
+    lambda x, y, z, M: (-x - M.sum(y), [abs(x) + M.max(y) <= 2, M.sum(abs(y)) + M.max(x, 0) <= 3]),
+    lambda x, y, z, M: (M.max(y) + abs(x - 1), [M.sum(y) >= 1, M.max(y) - M.min(y) <= 2, M.max(x, z) + M.max(y) <= 4, z == 1]),
+    lambda x, y, z, M: (M.sum(abs(y)) + M.max(x, -x, 1), [M.min(y) + M.min(x, z) >= -2, z <= 1, M.max(abs(y)) + M.max(y) <= 5]),
+    lambda x, y, z, M: (x + z, [M.max(y) <= x, -M.min(y) <= z, M.max(y) - M.min(y) + abs(x - z) <= 3, M.sum(y) == 1]),
+]
+
+
+def run_resolve(case):
+    """solve() repeated on one op, and a fresh op built from the same constraint objects afterwards: the op's variables,
+    the values of its objective and constraint functions at a fixed point and the answer stay the same."""
+    from cvxopt import matrix, modeling as M
+    x, y, z = M.variable(1, 'x'), M.variable(2, 'y'), M.variable(1, 'z')
+    obj, cons = RESOLVE[case['k']](x, y, z, M)
+    p = M.op(obj, cons)
+    viol = []
+    n = 0
+
+    def snapshot():
+        x.value, y.value, z.value = matrix([0.75]), matrix([-1.25, 2.5]), matrix([-0.5])
+        out = {'variables': sorted(v.name for v in p.variables()),
+               'objective': list(p.objective.value()),
+               'constraints': [list(c.value()) for c in p.constraints()],
+               'cvars': [sorted(v.name for v in c.variables()) for c in cons]}
+        x.value = y.value = z.value = None
+        return out
+
+    def answer(q):
+        try:
+            q.solve(case['fmt'])
+        except Exception as e:
+            return ('exc', type(e).__name__, str(e)[:80])
+        return (q.status, None if q.status != 'optimal' else round(q.objective.value()[0], 6))
+    s0 = snapshot()
+    first = answer(p)
+    n += 1
+    for rep in (2, 3):
+        try:
+            s1 = snapshot()
+        except Exception as e:
+            viol.append({'key': 'C13:resolve:op-unusable-after-solve', 'msg': 'after %d solve() calls reading the op raises %s: %s'
+                         % (rep - 1, type(e).__name__, e), 'sub': {'k': case['k']}})
+            break
+        if s1 != s0:
+            viol.append({'key': 'C13:resolve:solve-edited-the-problem', 'msg': 'after %d solve() calls the op reads %r, before the first %r'
+                         % (rep - 1, s1, s0), 'sub': {'k': case['k']}})
+            break
+        again = answer(p)
+        n += 1
+        if again != first:
+            viol.append({'key': 'C13:resolve:repeated-solve-differs', 'msg': 'solve() #%d gives %r, the first gave %r' % (rep, again, first)})
+            break
+    if not viol:
+        fresh = answer(M.op(obj, cons))
+        n += 1
+        if fresh != first:
+            viol.append({'key': 'C13:resolve:fresh-op-differs', 'msg': 'a fresh op over the same objective and constraints gives %r, the '
+                         'solved one gave %r' % (fresh, first)})
+    return {'n': n, 'nontrivial': n, 'viol': viol, 'outcomes': {'resolve:' + str(first[0]): 1}, 'states': 0, 'transitions': 0, 'traces': 0}
 
 
 # ------------------------------------------------------------------ pool
@@ -502,6 +570,8 @@ def run(case):
     from mc import cvx
     from cvxopt import solvers
     solvers.options['show_progress'] = False
+    if case.get('part') == 'resolve':
+        return run_resolve(case)
     solvers.options['abstol'] = 1e-8        # tighter than the defaults (1e-7 / 1e-6) so that values can be compared to 1e-6
     solvers.options['reltol'] = 1e-8
     stats = {'outcomes': {}, 'maxerr': 0.0, 'nontrivial': 0}
